@@ -1,1 +1,1127 @@
-//! C07 - not built yet
+//! C07 - compilation is deterministic.
+//!
+//! Differential monitor. The same input (entry file, include contents, defines, target, options) is compiled
+//! `THREAD_RUNS` times on fresh threads of this process and `PROCESS_RUNS` times in separate child processes (the
+//! harness binary re-executed as `verif-harness worker c07 case <file>`; main.rs must route `worker c07 ...` to
+//! `worker_main` below), for every target. Every `HashMap::new()` /
+//! `HashSet::new()` of every run has its own random SipHash keys, so every run iterates its hash containers in an
+//! independent order. Everything the caller of `compile()` can observe (`Outcome::observable()`: source bytes, stages,
+//! metadata, pipeline state, or the rendered diagnostic) must be byte-identical in all runs.
+//!
+//! The oracle is the property itself (equality of observations); nothing of rssl's implementation is modelled.
+//! What is specific to this check is the workload (src/gen/c07_workload.rs), built so that every hash-ordered
+//! container of the compiler holds several order-sensitive elements, and the evidence: per input the monitor measures,
+//! on the emitted output, how many suffixed names were issued, how many implicit parameters Metal functions got, how
+//! many inline constant blocks and argument buffer members exist. A run in which those sizes stay small is inconclusive.
+
+use crate::corpus;
+use c07_workload::Info;
+use crate::json::{self, Json};
+use crate::par;
+use crate::report::{Ctx, Report};
+use crate::rng::{hash_str, Rng};
+use crate::rs::{self, Files, Mode, Opts, Outcome, Tgt, ALL_TARGETS};
+use crate::CheckDef;
+use std::collections::HashSet;
+use std::sync::atomic::{AtomicU64, Ordering};
+
+// The workload generator lives in src/gen/c07_workload.rs; it is pulled in from here so that no other file of the
+// harness has to change for this check to build.
+#[path = "../gen/c07_workload.rs"]
+mod c07_workload;
+
+pub const THREAD_RUNS: usize = 8;
+pub const PROCESS_RUNS: usize = 3;
+/// Order-sensitive elements a container must hold for an input to count as a strong witness
+pub const K: usize = 4;
+
+pub fn def() -> CheckDef {
+    CheckDef {
+        id: "C07",
+        salt: 0xC07,
+        rule: "differential monitor: every input is compiled for 4 targets, 8 times on fresh threads and 3 times in freshly started child \
+               processes (11 independent hash seeds per container instance), and Outcome::observable() (source bytes, stages, metadata, \
+               pipeline state / diagnostic text / panic site) must be byte-identical in all runs. Inputs: (a) generated multi-file programs: \
+               5-9 static/groupshared globals and 12-30 resources in 3-5 bind groups (2-3 buffer addresses per group, groups interleaved) \
+               reached through 1-3 call chains of depth 3-6; 3-9 naming scopes (root, namespaces, nested and reopened namespaces), each \
+               with 3-5 kits (overload sets, function templates instantiated 3x, enum+function of one name, identifiers reserved by a back \
+               end) next to user symbols named f_0, f_1, f_0_0; locals named like globals/functions/generated names; 9-11 headers with \
+               #pragma once or include guards included repeatedly; 13-25 macros incl. function-like, conditional and redefined ones; \
+               command line defines; 1 in 6 with an injected error; modes all / named / no-pipeline, layout validation on/off; (b) the RSSL \
+               snippets of the repository's unit tests (accepted and rejected); (c) every tests/basic entry file; (d) capsaicin / ffx_fsr2 \
+               entry files (2 threads + 1 process). An unsorted iteration over a container with k >= 4 order-sensitive elements yields \
+               k! >= 24 equally likely outputs per run, so 11 independent runs all agree with probability < (1/24)^10 (about 1.6e-14) per \
+               input. In the name maps order sensitivity comes in pairs (f with overloads / user symbol f_0): m independent pairs give 2^m \
+               outputs and an all-agree probability of 2^(-10 m); the generator emits m >= 9 pairs per input, >= 3 in every scope (pairs \
+               built on an identifier that only one back end reserves count on that back end only; see histogram input-neutral-pairs). \
+               evaluations = compile() executions observed; distinct_nontrivial = distinct inputs (content hash of files, entry, defines, \
+               options) whose full set of runs was observed on all targets. The run is inconclusive unless enough inputs reached k >= 4 in \
+               every measured container (suffixed names per back end incl. a double suffix, implicit Metal parameters on >= 4 functions, \
+               inline constant blocks, argument buffer members, Metal helper table, include graph), enough rejected inputs and enough child \
+               process runs were observed. Generator avoids (other properties' findings): resource subscripts inside larger expressions \
+               (Metal back end rejects them), the identifier `select` and two-level qualified names NA::Inner::f (type checker panics, \
+               C08), spelling one #pragma once header in two ways (#pragma once is keyed on the spelling, C12), bind group >= 4 only in \
+               1 of 8 inputs (Metal back end panics, C08; the panic text is compared like any other outcome).",
+        assumptions: &[
+            "std::collections::hash_map::RandomState draws fresh keys per thread and per process and changes them per map instance (documented std behaviour), so 11 runs are 11 independent iteration orders",
+            "a 64 bit FNV-1a hash plus the length identifies the observable text of a child process run (the full text is exchanged only on mismatch)",
+            "the emitted-output measurements (suffix counts, implicit parameter counts) are textual heuristics; they gate conclusiveness, not the verdict",
+            "the in-memory include handler of the harness is deterministic",
+        ],
+        min_distinct: (220, 2000),
+        deadline_s: (60.0, 600.0),
+        run,
+        replay,
+    }
+}
+
+// ------------------------------------------------------------------------------------------------
+// Cases
+// ------------------------------------------------------------------------------------------------
+
+#[derive(Clone, Debug)]
+pub struct Case {
+    pub kind: String,
+    pub files: Files,
+    pub entry: String,
+    pub defines: Vec<(String, String)>,
+    pub mode: Mode,
+    pub validate_layout: bool,
+    pub thread_runs: usize,
+    pub process_runs: usize,
+    /// set when `files` is a whole corpus directory (then only the entry file is stored in witnesses)
+    pub corpus_set: String,
+    pub info: Option<Info>,
+}
+
+impl Case {
+    fn text(&self) -> &str {
+        self.files.0.iter().find(|f| f.0 == self.entry).map(|f| f.1.as_str()).unwrap_or("")
+    }
+
+    fn content_hash(&self) -> u64 {
+        let mut h = hash_str(&self.entry) ^ hash_str(&self.mode.name()).rotate_left(7) ^ (self.validate_layout as u64);
+        for (n, c) in &self.files.0 {
+            h = h.rotate_left(5) ^ hash_str(n) ^ hash_str(c).rotate_left(13);
+        }
+        for (a, b) in &self.defines {
+            h = h.rotate_left(3) ^ hash_str(a) ^ hash_str(b).rotate_left(29);
+        }
+        h
+    }
+
+    fn opts(&self, target: Tgt) -> Opts {
+        let mut o = Opts::new(target, self.mode.clone());
+        o.validate_layout = self.validate_layout;
+        o.defines = self.defines.clone();
+        o
+    }
+
+    fn to_json(&self, full_files: bool) -> Json {
+        let files = if full_files || self.corpus_set.is_empty() { self.files.to_json() } else { Files(vec![(self.entry.clone(), self.text().to_string())]).to_json() };
+        Json::obj()
+            .set("kind", &self.kind)
+            .set("entry", &self.entry)
+            .set("files", files)
+            .set("corpus_set", if full_files { "" } else { self.corpus_set.as_str() })
+            .set("defines", Json::Arr(self.defines.iter().map(|(a, b)| Json::Arr(vec![Json::str(a), Json::str(b)])).collect()))
+            .set("mode", self.mode.name())
+            .set("validate_layout", self.validate_layout)
+            .set("thread_runs", self.thread_runs)
+            .set("process_runs", self.process_runs)
+    }
+
+    fn from_json(j: &Json) -> Case {
+        let mut files = Files::from_json(j.get("files").unwrap_or(&Json::Null));
+        let set = j.get_str("corpus_set").unwrap_or("").to_string();
+        if !set.is_empty() {
+            if let Some(cs) = corpus::load().into_iter().find(|s| s.name == set) {
+                let mut all = cs.files;
+                for f in files.0 {
+                    all.0.retain(|x| x.0 != f.0);
+                    all.0.push(f);
+                }
+                files = all;
+            }
+        }
+        let mut defines = Vec::new();
+        if let Some(d) = j.get("defines").and_then(|d| d.as_arr()) {
+            for kv in d {
+                if let Some(kv) = kv.as_arr() {
+                    if kv.len() == 2 {
+                        defines.push((kv[0].as_str().unwrap_or("").to_string(), kv[1].as_str().unwrap_or("").to_string()));
+                    }
+                }
+            }
+        }
+        Case {
+            kind: j.get_str("kind").unwrap_or("replay").to_string(),
+            files,
+            entry: j.get_str("entry").unwrap_or("main.rssl").to_string(),
+            defines,
+            mode: Mode::from_name(j.get_str("mode").unwrap_or("all")),
+            validate_layout: j.get("validate_layout").and_then(|v| v.as_bool()).unwrap_or(false),
+            thread_runs: j.get("thread_runs").and_then(|v| v.as_i64()).unwrap_or(THREAD_RUNS as i64).clamp(1, 64) as usize,
+            process_runs: j.get("process_runs").and_then(|v| v.as_i64()).unwrap_or(PROCESS_RUNS as i64).clamp(0, 16) as usize,
+            corpus_set: set,
+            info: None,
+        }
+    }
+}
+
+pub struct Corpus {
+    pub sets: Vec<corpus::CorpusSet>,
+    pub snippets: Vec<String>,
+}
+
+/// What a run consists of: how many cases of each family, in this order
+struct Plan {
+    /// (set index, entry) of big corpus files, compiled 2 + 1 times
+    big: Vec<(usize, String)>,
+    /// (set index, entry) of tests/basic files, compiled 8 + 3 times
+    basic: Vec<(usize, String)>,
+    generated: u64,
+    snippets: u64,
+    snippet_start: usize,
+}
+
+impl Plan {
+    fn new(ctx: &Ctx, corpus: &Corpus) -> Plan {
+        let mut rng = Rng::for_case(ctx.seed, 0xC07_0001, 0);
+        let mut big = Vec::new();
+        let mut basic = Vec::new();
+        for (si, set) in corpus.sets.iter().enumerate() {
+            if set.has_pipelines {
+                for e in &set.entries {
+                    basic.push((si, e.clone()));
+                }
+            } else if !set.entries.is_empty() {
+                let take = ctx.tier.pick(1, set.entries.len() as u64) as usize;
+                let mut entries = set.entries.clone();
+                rng.shuffle(&mut entries);
+                for e in entries.into_iter().take(take) {
+                    big.push((si, e));
+                }
+            }
+        }
+        let n_snip = corpus.snippets.len() as u64;
+        Plan {
+            big,
+            basic,
+            generated: ctx.tier.pick(160, 2400),
+            snippets: ctx.tier.pick(160.min(n_snip), n_snip),
+            snippet_start: if n_snip == 0 { 0 } else { rng.below(n_snip as usize) },
+        }
+    }
+    fn total(&self) -> u64 {
+        (self.big.len() + self.basic.len()) as u64 + self.generated + self.snippets
+    }
+}
+
+fn corpus_case(corpus: &Corpus, si: usize, entry: &str, big: bool) -> Case {
+    let set = &corpus.sets[si];
+    Case {
+        kind: format!("corpus:{}:{}", set.name, entry),
+        files: set.files.clone(),
+        entry: entry.to_string(),
+        defines: set.defines.clone(),
+        mode: if set.has_pipelines { Mode::All } else { Mode::NoPipeline },
+        validate_layout: false,
+        thread_runs: if big { 2 } else { THREAD_RUNS },
+        process_runs: if big { 1 } else { PROCESS_RUNS },
+        corpus_set: set.name.clone(),
+        info: None,
+    }
+}
+
+pub fn generated_case(seed: u64, index: u64) -> Case {
+    let mut rng = Rng::for_case(seed, 0xC07_0002, index);
+    let w = c07_workload::generate(&mut rng);
+    Case {
+        kind: if w.info.injected_error.is_some() { "generated-with-error".to_string() } else { "generated".to_string() },
+        files: Files(w.files),
+        entry: w.entry,
+        defines: w.defines,
+        mode: Mode::from_name(&w.mode),
+        validate_layout: w.validate_layout,
+        thread_runs: THREAD_RUNS,
+        process_runs: PROCESS_RUNS,
+        corpus_set: String::new(),
+        info: Some(w.info),
+    }
+}
+
+/// The case for (seed, index): a pure function of both (and of the repository's corpus)
+fn make_case(seed: u64, index: u64, corpus: &Corpus, plan: &Plan) -> Case {
+    let mut i = index as usize;
+    if i < plan.big.len() {
+        return corpus_case(corpus, plan.big[i].0, &plan.big[i].1, true);
+    }
+    i -= plan.big.len();
+    if i < plan.basic.len() {
+        return corpus_case(corpus, plan.basic[i].0, &plan.basic[i].1, false);
+    }
+    i -= plan.basic.len();
+    // generated programs and snippets interleaved in proportion
+    let rest = i as u64;
+    let total = (plan.generated + plan.snippets).max(1);
+    let snippets_before = rest * plan.snippets / total;
+    let snippets_after = (rest + 1) * plan.snippets / total;
+    if snippets_after > snippets_before && !corpus.snippets.is_empty() {
+        let text = corpus.snippets[(plan.snippet_start + snippets_before as usize) % corpus.snippets.len()].clone();
+        let has_pipeline = text.contains("Pipeline ") && text.contains("Shader");
+        Case {
+            kind: "snippet".to_string(),
+            files: Files::single("main.rssl", &text),
+            entry: "main.rssl".to_string(),
+            defines: Vec::new(),
+            mode: if has_pipeline { Mode::All } else { Mode::NoPipeline },
+            validate_layout: false,
+            thread_runs: THREAD_RUNS,
+            process_runs: PROCESS_RUNS,
+            corpus_set: String::new(),
+            info: None,
+        }
+    } else {
+        generated_case(seed, rest - snippets_before)
+    }
+}
+
+// ------------------------------------------------------------------------------------------------
+// Observation of one run
+// ------------------------------------------------------------------------------------------------
+
+/// Sizes of the order-sensitive sets as seen in the emitted output of one input
+#[derive(Clone, Debug, Default)]
+pub struct Sizes {
+    pub classes: Vec<&'static str>,
+    /// distinct identifiers `<name>_<n>` in the DirectX / Metal source which do not occur in the input
+    pub suffixes_hlsl: usize,
+    pub suffixes_msl: usize,
+    /// of those, names with two numeric suffixes (`f_0_0`): a generated name had to avoid a user name of generated form
+    pub double_suffixes: usize,
+    /// Metal: largest number of implicit (address space qualified / resource typed) parameters on one function, and how many functions have >= K
+    pub msl_max_implicit: usize,
+    pub msl_functions_k: usize,
+    /// Vulkan + buffer address: bind groups with an inline constant block, and the largest number of 8 byte members
+    pub inline_blocks: usize,
+    pub inline_members_max: usize,
+    /// Metal: argument buffers and the largest number of members
+    pub argument_buffers: usize,
+    pub argument_members_max: usize,
+    /// Metal helper namespace: structs and functions emitted
+    pub helper_structs: usize,
+    pub helper_functions: usize,
+    /// input side: include directives, `#pragma once` files, macro definitions
+    pub includes: usize,
+    pub pragma_once: usize,
+    pub macros: usize,
+}
+
+impl Sizes {
+    fn to_json(&self) -> Json {
+        Json::obj()
+            .set("outcome_per_target", Json::from(self.classes.iter().map(|c| c.to_string()).collect::<Vec<_>>()))
+            .set("suffixed_names_hlsl", self.suffixes_hlsl)
+            .set("suffixed_names_msl", self.suffixes_msl)
+            .set("double_suffixed_names", self.double_suffixes)
+            .set("msl_max_implicit_parameters", self.msl_max_implicit)
+            .set("msl_functions_with_k_implicit_parameters", self.msl_functions_k)
+            .set("inline_constant_blocks", self.inline_blocks)
+            .set("inline_constant_members_max", self.inline_members_max)
+            .set("argument_buffers", self.argument_buffers)
+            .set("argument_buffer_members_max", self.argument_members_max)
+            .set("helper_structs", self.helper_structs)
+            .set("helper_functions", self.helper_functions)
+            .set("include_directives", self.includes)
+            .set("pragma_once_files", self.pragma_once)
+            .set("macro_definitions", self.macros)
+    }
+}
+
+fn identifiers(text: &str) -> HashSet<&str> {
+    let b = text.as_bytes();
+    let mut out = HashSet::new();
+    let mut i = 0;
+    while i < b.len() {
+        let c = b[i];
+        if c.is_ascii_alphabetic() || c == b'_' {
+            let s = i;
+            while i < b.len() && (b[i].is_ascii_alphanumeric() || b[i] == b'_') {
+                i += 1;
+            }
+            out.insert(&text[s..i]);
+        } else if c.is_ascii_digit() {
+            // number with suffix letters: not an identifier
+            while i < b.len() && (b[i].is_ascii_alphanumeric() || b[i] == b'_' || b[i] == b'.') {
+                i += 1;
+            }
+        } else {
+            i += 1;
+        }
+    }
+    out
+}
+
+fn numeric_suffix(id: &str) -> Option<&str> {
+    let (stem, digits) = id.rsplit_once('_')?;
+    if stem.is_empty() || digits.is_empty() || !digits.bytes().all(|c| c.is_ascii_digit()) {
+        return None;
+    }
+    Some(stem)
+}
+
+/// (suffixed names not present in the input, those with a double suffix)
+fn issued_suffixes(source: &str, input_ids: &HashSet<&str>) -> (usize, usize) {
+    let mut n = 0;
+    let mut double = 0;
+    for id in identifiers(source) {
+        if input_ids.contains(id) {
+            continue;
+        }
+        if let Some(stem) = numeric_suffix(id) {
+            n += 1;
+            if numeric_suffix(stem).is_some() {
+                double += 1;
+            }
+        }
+    }
+    (n, double)
+}
+
+fn split_top_level(params: &str) -> Vec<&str> {
+    let mut out = Vec::new();
+    let mut depth = 0i32;
+    let mut start = 0;
+    for (i, c) in params.char_indices() {
+        match c {
+            '(' | '[' | '<' => depth += 1,
+            ')' | ']' | '>' => depth -= 1,
+            ',' if depth == 0 => {
+                out.push(params[start..i].trim());
+                start = i + 1;
+            }
+            _ => {}
+        }
+    }
+    let last = params[start..].trim();
+    if !last.is_empty() {
+        out.push(last);
+    }
+    out
+}
+
+/// Metal source: per function header outside the helper namespace and the entry point wrappers, the number of
+/// parameters that carry an address space or a resource type (what the generator adds for required globals)
+fn msl_implicit_parameters(source: &str) -> Vec<usize> {
+    let mut out = Vec::new();
+    let mut in_helper = false;
+    for line in source.lines() {
+        let t = line.trim();
+        if t.starts_with("namespace helper") {
+            in_helper = true;
+        } else if t.starts_with("} // namespace helper") {
+            in_helper = false;
+        }
+        if in_helper || !t.ends_with(") {") || t.contains("[[") {
+            continue;
+        }
+        let first = t.split(|c: char| !c.is_ascii_alphanumeric() && c != '_').next().unwrap_or("");
+        if matches!(first, "if" | "for" | "while" | "switch" | "else" | "do" | "return") || t.starts_with('}') {
+            continue;
+        }
+        let Some(open) = t.find('(') else { continue };
+        let params = &t[open + 1..t.len() - 3];
+        let mut n = 0;
+        for p in split_top_level(params) {
+            let p = p.strip_prefix("const ").unwrap_or(p);
+            if p.starts_with("thread ") || p.starts_with("threadgroup ") || p.starts_with("constant ") || p.starts_with("device ") || p.starts_with("helper::") || p.starts_with("metal::") {
+                n += 1;
+            }
+        }
+        out.push(n);
+    }
+    out
+}
+
+fn helper_table(source: &str) -> (usize, usize) {
+    let mut structs = 0;
+    let mut functions = 0;
+    let mut in_helper = false;
+    for line in source.lines() {
+        let t = line.trim();
+        if t.starts_with("namespace helper") {
+            in_helper = true;
+            continue;
+        }
+        if t.starts_with("} // namespace helper") {
+            break;
+        }
+        if in_helper {
+            if t.starts_with("struct ") {
+                structs += 1;
+            } else if t.ends_with(") {") || t.ends_with(") const {") {
+                let first = t.split(|c: char| !c.is_ascii_alphanumeric() && c != '_').next().unwrap_or("");
+                if !matches!(first, "if" | "for" | "while" | "switch" | "else" | "do" | "return") {
+                    functions += 1;
+                }
+            }
+        }
+    }
+    (structs, functions)
+}
+
+fn measure(case: &Case, outcomes: &[Outcome]) -> Sizes {
+    let mut s = Sizes::default();
+    let mut input_ids: HashSet<&str> = HashSet::new();
+    for (_, text) in &case.files.0 {
+        input_ids.extend(identifiers(text));
+        for line in text.lines() {
+            let l = line.trim_start();
+            if let Some(rest) = l.strip_prefix('#') {
+                let rest = rest.trim_start();
+                if rest.starts_with("include") {
+                    s.includes += 1;
+                } else if rest.starts_with("define") {
+                    s.macros += 1;
+                } else if rest.starts_with("pragma") && rest.contains("once") {
+                    s.pragma_once += 1;
+                }
+            }
+        }
+    }
+    for (t, o) in ALL_TARGETS.iter().zip(outcomes) {
+        s.classes.push(o.class());
+        let Some(pipes) = o.ok() else { continue };
+        for p in pipes {
+            match t {
+                Tgt::Dx => {
+                    let (n, d) = issued_suffixes(&p.source, &input_ids);
+                    s.suffixes_hlsl = s.suffixes_hlsl.max(n);
+                    s.double_suffixes = s.double_suffixes.max(d);
+                }
+                Tgt::Vk => {}
+                Tgt::VkBa => {
+                    let blocks = p.metadata.bind_groups.iter().filter(|g| g.inline_constants.is_some()).count();
+                    s.inline_blocks = s.inline_blocks.max(blocks);
+                    for g in &p.metadata.bind_groups {
+                        if let Some(ic) = &g.inline_constants {
+                            s.inline_members_max = s.inline_members_max.max(ic.size_in_bytes as usize / 8);
+                        }
+                    }
+                }
+                Tgt::Msl => {
+                    let (n, d) = issued_suffixes(&p.source, &input_ids);
+                    s.suffixes_msl = s.suffixes_msl.max(n);
+                    s.double_suffixes = s.double_suffixes.max(d);
+                    let implicit = msl_implicit_parameters(&p.source);
+                    s.msl_max_implicit = s.msl_max_implicit.max(implicit.iter().copied().max().unwrap_or(0));
+                    s.msl_functions_k = s.msl_functions_k.max(implicit.iter().filter(|n| **n >= K).count());
+                    s.argument_buffers = s.argument_buffers.max(p.metadata.bind_groups.iter().filter(|g| !g.bindings.is_empty()).count());
+                    s.argument_members_max = s.argument_members_max.max(p.metadata.bind_groups.iter().map(|g| g.bindings.len()).max().unwrap_or(0));
+                    let (hs, hf) = helper_table(&p.source);
+                    s.helper_structs = s.helper_structs.max(hs);
+                    s.helper_functions = s.helper_functions.max(hf);
+                }
+            }
+        }
+    }
+    s
+}
+
+struct RunObs {
+    /// Outcome::observable() per target
+    texts: Vec<String>,
+    sizes: Option<Sizes>,
+}
+
+fn observe_all_targets(case: &Case, want_sizes: bool) -> RunObs {
+    let mut outcomes = Vec::new();
+    for t in ALL_TARGETS {
+        outcomes.push(rs::compile(&case.files, &case.entry, &case.opts(t)));
+    }
+    let texts = outcomes.iter().map(|o| o.observable()).collect();
+    let sizes = if want_sizes { Some(measure(case, &outcomes)) } else { None };
+    RunObs { texts, sizes }
+}
+
+/// One run on a thread that did not exist before (fresh hash keys), with a large stack like all harness workers
+fn run_on_fresh_thread(case: &Case, want_sizes: bool) -> Result<RunObs, String> {
+    std::thread::scope(|scope| {
+        let h = std::thread::Builder::new()
+            .stack_size(par::WORKER_STACK)
+            .spawn_scoped(scope, || observe_all_targets(case, want_sizes))
+            .map_err(|e| format!("cannot spawn thread: {}", e))?;
+        h.join().map_err(|_| "observer thread panicked".to_string())
+    })
+}
+
+// ------------------------------------------------------------------------------------------------
+// Child process runs
+// ------------------------------------------------------------------------------------------------
+
+static SCRATCH_COUNTER: AtomicU64 = AtomicU64::new(0);
+
+fn hex(h: u64) -> String {
+    format!("{:016x}", h)
+}
+
+/// `verif-harness worker c07 ...` (main.rs dispatches here).
+///   case <file>        child protocol: compile the case of <file> for every target, print one JSON document
+///   gen <seed> <index> developer aid: print the generated input and what the monitor measures on it
+///   try <file.rssl>    developer aid: compile one file for every target
+pub fn worker_main(args: &[String]) {
+    par::install_panic_hook();
+    let cmd = args.first().map(|s| s.as_str()).unwrap_or("");
+    match cmd {
+        "case" => {
+            let path = args.get(1).cloned().unwrap_or_default();
+            let text = match std::fs::read_to_string(&path) {
+                Ok(t) => t,
+                Err(e) => {
+                    eprintln!("cannot read {}: {}", path, e);
+                    std::process::exit(3);
+                }
+            };
+            let j = match json::parse(&text) {
+                Ok(j) => j,
+                Err(e) => {
+                    eprintln!("cannot parse {}: {}", path, e);
+                    std::process::exit(3);
+                }
+            };
+            let case = Case::from_json(&j);
+            let obs = match run_on_fresh_thread(&case, false) {
+                Ok(o) => o,
+                Err(e) => {
+                    eprintln!("{}", e);
+                    std::process::exit(4);
+                }
+            };
+            let expect = j.get("expect").and_then(|e| e.as_arr()).map(|a| a.to_vec()).unwrap_or_default();
+            let mut results = Vec::new();
+            for (i, t) in ALL_TARGETS.iter().enumerate() {
+                let text = &obs.texts[i];
+                let h = hex(hash_str(text));
+                let mut r = Json::obj().set("target", t.name()).set("len", text.len()).set("hash", h.as_str());
+                let same = expect.get(i).map(|e| e.get_str("hash") == Some(h.as_str()) && e.get("len").and_then(|l| l.as_i64()) == Some(text.len() as i64)).unwrap_or(false);
+                if !same {
+                    // the parent wants to see what this process produced
+                    r.put("text", text.as_str());
+                }
+                results.push(r);
+            }
+            println!("{}", Json::obj().set("results", Json::Arr(results)).to_string_compact());
+        }
+        "gen" | "try" => {
+            let case = if cmd == "gen" {
+                let seed: u64 = args.get(1).and_then(|s| s.parse().ok()).unwrap_or(1);
+                let index: u64 = args.get(2).and_then(|s| s.parse().ok()).unwrap_or(0);
+                generated_case(seed ^ 0xC07, index)
+            } else {
+                let path = args.get(1).cloned().unwrap_or_default();
+                let text = std::fs::read_to_string(&path).unwrap_or_default();
+                let mut c = generated_case(1, 0);
+                c.kind = "file".into();
+                c.files = Files::single("main.rssl", &text);
+                c.entry = "main.rssl".into();
+                c.defines.clear();
+                c.mode = Mode::from_name(args.get(2).map(|s| s.as_str()).unwrap_or("all"));
+                c.info = None;
+                c
+            };
+            let show = args.iter().any(|a| a == "--show");
+            if cmd == "gen" {
+                for (n, c) in &case.files.0 {
+                    println!("//////// {} ////////\n{}", n, c);
+                }
+                println!("//////// defines {:?} mode {} validate_layout {}", case.defines, case.mode.name(), case.validate_layout);
+                println!("//////// info {:?}", case.info);
+            }
+            let mut outcomes = Vec::new();
+            for t in ALL_TARGETS {
+                let o = rs::compile(&case.files, &case.entry, &case.opts(t));
+                println!("//////// {} => {}", t.name(), o.brief());
+                if let Outcome::Diag(d) = &o {
+                    println!("{}", d);
+                }
+                if show {
+                    if let Some(p) = o.ok() {
+                        for p in p {
+                            println!("{}", p.observable());
+                        }
+                    }
+                }
+                outcomes.push(o);
+            }
+            println!("//////// sizes {}", measure(&case, &outcomes).to_json().to_string_compact());
+        }
+        _ => {
+            eprintln!("usage: verif-harness worker c07 case <file> | gen <seed> <index> [--show] | try <file> [mode] [--show]");
+            std::process::exit(2);
+        }
+    }
+}
+
+enum ChildResult {
+    /// per target: (len, hash, text if it differed from what the parent expected)
+    Done(Vec<(usize, String, Option<String>)>),
+    SpawnFailed(String),
+    Died(String),
+    TimedOut,
+}
+
+const CHILD_TIMEOUT_S: u64 = 300;
+
+fn run_child(case_path: &std::path::Path, out_path: &std::path::Path) -> ChildResult {
+    let exe = match std::env::current_exe() {
+        Ok(e) => e,
+        Err(e) => return ChildResult::SpawnFailed(e.to_string()),
+    };
+    let out_file = match std::fs::File::create(out_path) {
+        Ok(f) => f,
+        Err(e) => return ChildResult::SpawnFailed(format!("cannot create {}: {}", out_path.display(), e)),
+    };
+    let mut child = match std::process::Command::new(exe)
+        .arg("worker")
+        .arg("c07")
+        .arg("case")
+        .arg(case_path)
+        .stdin(std::process::Stdio::null())
+        .stdout(std::process::Stdio::from(out_file))
+        .stderr(std::process::Stdio::null())
+        .spawn()
+    {
+        Ok(c) => c,
+        Err(e) => return ChildResult::SpawnFailed(e.to_string()),
+    };
+    let start = std::time::Instant::now();
+    let status = loop {
+        match child.try_wait() {
+            Ok(Some(s)) => break s,
+            Ok(None) => {
+                if start.elapsed().as_secs() > CHILD_TIMEOUT_S {
+                    let _ = child.kill();
+                    let _ = child.wait();
+                    return ChildResult::TimedOut;
+                }
+                std::thread::sleep(std::time::Duration::from_millis(if start.elapsed().as_millis() < 50 { 1 } else { 5 }));
+            }
+            Err(e) => return ChildResult::Died(format!("wait failed: {}", e)),
+        }
+    };
+    if !status.success() {
+        use std::os::unix::process::ExitStatusExt;
+        return ChildResult::Died(match status.signal() {
+            Some(sig) => format!("signal {}", sig),
+            None => format!("exit {}", status.code().unwrap_or(-1)),
+        });
+    }
+    let text = std::fs::read_to_string(out_path).unwrap_or_default();
+    let j = match json::parse(text.trim()) {
+        Ok(j) => j,
+        Err(e) => return ChildResult::Died(format!("unreadable result: {}", e)),
+    };
+    let mut out = Vec::new();
+    for r in j.get("results").and_then(|r| r.as_arr()).unwrap_or(&[]) {
+        out.push((r.get("len").and_then(|l| l.as_i64()).unwrap_or(-1) as usize, r.get_str("hash").unwrap_or("").to_string(), r.get_str("text").map(|s| s.to_string())));
+    }
+    if out.len() != ALL_TARGETS.len() {
+        return ChildResult::Died("incomplete result".to_string());
+    }
+    ChildResult::Done(out)
+}
+
+// ------------------------------------------------------------------------------------------------
+// The monitor
+// ------------------------------------------------------------------------------------------------
+
+/// Which part of the observation differs, and what kind of difference it is
+fn classify(reference: &str, other: &str) -> (String, String, usize, String, String) {
+    let class = |s: &str| -> &'static str {
+        if s.starts_with("OK ") {
+            "ok"
+        } else if s.starts_with("DIAG ") {
+            "diagnostic"
+        } else if s.starts_with("PANIC ") {
+            "panic"
+        } else {
+            "budget"
+        }
+    };
+    let (ca, cb) = (class(reference), class(other));
+    let mut la = reference.lines();
+    let mut lb = other.lines();
+    let mut n = 0;
+    let (a, b) = loop {
+        n += 1;
+        match (la.next(), lb.next()) {
+            (Some(x), Some(y)) if x == y => continue,
+            (x, y) => break (x.unwrap_or("<end of output>").to_string(), y.unwrap_or("<end of output>").to_string()),
+        }
+    };
+    if ca != cb {
+        return ("outcome-class".to_string(), format!("{}-vs-{}", ca, cb), n, a, b);
+    }
+    if ca != "ok" {
+        return (ca.to_string(), "text".to_string(), n, a, b);
+    }
+    let component = if a.starts_with("--stages") || b.starts_with("--stages") {
+        "stages"
+    } else if a.starts_with("--metadata") || b.starts_with("--metadata") {
+        "metadata"
+    } else if a.starts_with("--state") || b.starts_with("--state") {
+        "pipeline-state"
+    } else if n == 1 {
+        "pipeline-count"
+    } else {
+        "source"
+    };
+    let mut ta: Vec<&str> = identifiers_in_order(&a);
+    let mut tb: Vec<&str> = identifiers_in_order(&b);
+    let header = a.trim_end().ends_with(") {") || b.trim_end().ends_with(") {");
+    let what = if a.contains("InlineDescriptor") || b.contains("InlineDescriptor") || a.contains("vk::offset") || a.contains("InlineConstant") {
+        "inline-constants"
+    } else if a.contains("[[id(") || b.contains("[[id(") || a.contains("ArgumentBuffer") || b.contains("ArgumentBuffer") {
+        "argument-buffer"
+    } else {
+        let same_order_insensitive = {
+            ta.sort();
+            tb.sort();
+            ta == tb
+        };
+        if same_order_insensitive && header {
+            "parameter-order"
+        } else if same_order_insensitive {
+            "order"
+        } else {
+            // do the two lines differ only in numeric suffixes?
+            let strip = |v: &Vec<&str>| -> Vec<String> {
+                v.iter()
+                    .map(|id| {
+                        let mut s: &str = id;
+                        while let Some(stem) = numeric_suffix(s) {
+                            s = stem;
+                        }
+                        s.to_string()
+                    })
+                    .collect()
+            };
+            if strip(&ta) == strip(&tb) {
+                "name-suffix"
+            } else if header {
+                "function-signature"
+            } else {
+                "content"
+            }
+        }
+    };
+    (component.to_string(), what.to_string(), n, a, b)
+}
+
+fn identifiers_in_order(line: &str) -> Vec<&str> {
+    let b = line.as_bytes();
+    let mut out = Vec::new();
+    let mut i = 0;
+    while i < b.len() {
+        if b[i].is_ascii_alphanumeric() || b[i] == b'_' {
+            let s = i;
+            while i < b.len() && (b[i].is_ascii_alphanumeric() || b[i] == b'_') {
+                i += 1;
+            }
+            out.push(&line[s..i]);
+        } else {
+            i += 1;
+        }
+    }
+    out
+}
+
+fn excerpt(text: &str, line: usize) -> String {
+    if text.len() <= 48 * 1024 {
+        return text.to_string();
+    }
+    let from = line.saturating_sub(25);
+    text.lines().skip(from).take(50).collect::<Vec<_>>().join("\n")
+}
+
+fn bucket(n: usize) -> &'static str {
+    match n {
+        0 => "0",
+        1 => "1",
+        2..=3 => "2-3",
+        4..=7 => "4-7",
+        8..=15 => "8-15",
+        16..=31 => "16-31",
+        _ => "32+",
+    }
+}
+
+fn report_difference(case: &Case, target: Tgt, other_run: &str, reference: &str, other: &str, report: &mut Report) {
+    let (component, what, line, a, b) = classify(reference, other);
+    let signature = format!("nondeterministic:{}:{}:{}", target.name(), component, what);
+    let summary = format!(
+        "{} input {}: {} differs from thread#0 for target {} at line {} of the observation: `{}` vs `{}`",
+        case.kind,
+        case.entry,
+        other_run,
+        target.name(),
+        line,
+        a.trim().chars().take(160).collect::<String>(),
+        b.trim().chars().take(160).collect::<String>()
+    );
+    let witness = case
+        .to_json(false)
+        .set("target", target.name())
+        .set("reference_run", "thread#0")
+        .set("other_run", other_run)
+        .set("component", component.as_str())
+        .set("difference", what.as_str())
+        .set("first_difference_line", line)
+        .set("reference_line", a.as_str())
+        .set("other_line", b.as_str())
+        .set("reference_observation", excerpt(reference, line))
+        .set("other_observation", excerpt(other, line));
+    report.violation(&signature, &summary, witness);
+}
+
+/// Observe all runs of one case and compare them. Returns the sizes measured on the reference run.
+pub fn examine(case: &Case, report: &mut Report) -> Option<Sizes> {
+    let family = case.kind.split(':').next().unwrap_or("").to_string();
+    report.count(&format!("input:{}", family));
+    // ---- runs on fresh threads -------------------------------------------------------------------
+    let reference = match run_on_fresh_thread(case, true) {
+        Ok(r) => r,
+        Err(e) => {
+            report.inconclusive(&format!("reference run failed: {}", e));
+            return None;
+        }
+    };
+    report.evaluations += ALL_TARGETS.len() as u64;
+    let mut reported = [false; 4];
+    for run in 1..case.thread_runs {
+        let obs = match run_on_fresh_thread(case, false) {
+            Ok(r) => r,
+            Err(e) => {
+                report.inconclusive(&format!("thread run failed: {}", e));
+                return None;
+            }
+        };
+        report.evaluations += ALL_TARGETS.len() as u64;
+        for (i, t) in ALL_TARGETS.iter().enumerate() {
+            if obs.texts[i] != reference.texts[i] && !reported[i] {
+                reported[i] = true;
+                report_difference(case, *t, &format!("thread#{}", run), &reference.texts[i], &obs.texts[i], report);
+            }
+        }
+    }
+    report.count_n("runs:fresh-thread", case.thread_runs as u64);
+
+    // ---- runs in child processes -----------------------------------------------------------------
+    let mut complete = true;
+    if case.process_runs > 0 {
+        let dir = crate::verif_dir().join("replays");
+        let _ = std::fs::create_dir_all(&dir);
+        let tag = format!("c07-{}-{}", std::process::id(), SCRATCH_COUNTER.fetch_add(1, Ordering::Relaxed));
+        let case_path = dir.join(format!("{}.case.tmp", tag));
+        let out_path = dir.join(format!("{}.out.tmp", tag));
+        let expect: Vec<Json> = ALL_TARGETS.iter().enumerate().map(|(i, t)| Json::obj().set("target", t.name()).set("len", reference.texts[i].len()).set("hash", hex(hash_str(&reference.texts[i])))).collect();
+        let doc = case.to_json(true).set("expect", Json::Arr(expect));
+        if std::fs::write(&case_path, doc.to_string_compact()).is_err() {
+            report.inconclusive("cannot write the scratch file for the child process runs");
+            complete = false;
+        } else {
+            for run in 0..case.process_runs {
+                // a failed start or an abnormal end is retried once (the machine may be short of processes or memory)
+                let mut result = run_child(&case_path, &out_path);
+                if matches!(result, ChildResult::SpawnFailed(_) | ChildResult::Died(_)) {
+                    report.count("child:retried");
+                    std::thread::sleep(std::time::Duration::from_millis(200));
+                    result = run_child(&case_path, &out_path);
+                }
+                match result {
+                    ChildResult::Done(results) => {
+                        report.evaluations += ALL_TARGETS.len() as u64;
+                        report.count("runs:child-process");
+                        for (i, t) in ALL_TARGETS.iter().enumerate() {
+                            let (len, hash, text) = &results[i];
+                            let same = *len == reference.texts[i].len() && *hash == hex(hash_str(&reference.texts[i]));
+                            if !same && !reported[i] {
+                                reported[i] = true;
+                                let other = text.clone().unwrap_or_else(|| format!("<child reported length {} hash {} without text>", len, hash));
+                                report_difference(case, *t, &format!("process#{}", run), &reference.texts[i], &other, report);
+                            }
+                        }
+                    }
+                    ChildResult::SpawnFailed(e) => {
+                        report.inconclusive(&format!("cannot start a child process: {}", e));
+                        complete = false;
+                    }
+                    ChildResult::Died(what) => {
+                        // the same input did not kill the in-process runs (big stack thread in both); attribute nothing, but do not claim the comparison
+                        report.count("child:died");
+                        report.inconclusive(&format!("a child process run ended abnormally ({}) on a {} input", what, family));
+                        complete = false;
+                    }
+                    ChildResult::TimedOut => {
+                        report.count("child:timeout");
+                        report.inconclusive(&format!("a child process run produced no result within {} s on a {} input", CHILD_TIMEOUT_S, family));
+                        complete = false;
+                    }
+                }
+            }
+        }
+        let _ = std::fs::remove_file(&case_path);
+        let _ = std::fs::remove_file(&out_path);
+    }
+
+    // ---- evidence ----------------------------------------------------------------------------------
+    let sizes = reference.sizes.clone().unwrap_or_default();
+    for (t, c) in ALL_TARGETS.iter().zip(&sizes.classes) {
+        report.count(&format!("outcome:{}:{}", t.name(), c));
+    }
+    let accepted_somewhere = sizes.classes.iter().any(|c| *c == "ok");
+    let rejected_everywhere = sizes.classes.iter().all(|c| *c == "diagnostic");
+    report.count(if accepted_somewhere {
+        "inputs:accepted-on-some-target"
+    } else if rejected_everywhere {
+        "inputs:rejected-on-all-targets"
+    } else {
+        "inputs:panic-or-budget"
+    });
+    if complete {
+        report.distinct(case.content_hash());
+    }
+    if accepted_somewhere {
+        report.count(&format!("hist:{}:suffixed-names-hlsl:{}", family, bucket(sizes.suffixes_hlsl)));
+        report.count(&format!("hist:{}:suffixed-names-msl:{}", family, bucket(sizes.suffixes_msl)));
+        report.count(&format!("hist:{}:double-suffixed-names:{}", family, bucket(sizes.double_suffixes)));
+        report.count(&format!("hist:{}:msl-max-implicit-parameters:{}", family, bucket(sizes.msl_max_implicit)));
+        report.count(&format!("hist:{}:inline-constant-blocks:{}", family, bucket(sizes.inline_blocks)));
+        report.count(&format!("hist:{}:argument-buffer-members-max:{}", family, bucket(sizes.argument_members_max)));
+        report.count(&format!("hist:{}:helper-functions:{}", family, bucket(sizes.helper_functions)));
+        report.count(&format!("hist:{}:include-directives:{}", family, bucket(sizes.includes)));
+        report.max("max:suffixed-names-hlsl", sizes.suffixes_hlsl as u64);
+        report.max("max:suffixed-names-msl", sizes.suffixes_msl as u64);
+        report.max("max:msl-implicit-parameters", sizes.msl_max_implicit as u64);
+        report.max("max:inline-constant-blocks", sizes.inline_blocks as u64);
+        report.max("max:inline-constant-members", sizes.inline_members_max as u64);
+        report.max("max:argument-buffer-members", sizes.argument_members_max as u64);
+        report.max("max:helper-functions", sizes.helper_functions as u64);
+        // strong witnesses: containers with >= K order-sensitive elements, as seen in the output
+        let strong: [(&str, bool); 8] = [
+            ("strong:names-hlsl(>=4 suffixed names, >=1 double suffix)", sizes.suffixes_hlsl >= K && sizes.double_suffixes >= 1),
+            ("strong:names-msl(>=4 suffixed names)", sizes.suffixes_msl >= K),
+            ("strong:usage-sets(>=4 implicit parameters on >=4 Metal functions)", sizes.msl_max_implicit >= K && sizes.msl_functions_k >= K),
+            ("strong:inline-constant-blocks(>=4 groups)", sizes.inline_blocks >= K),
+            ("strong:inline-constant-blocks(>=3 groups)", sizes.inline_blocks >= 3),
+            ("strong:argument-buffers(>=4 members in one buffer)", sizes.argument_members_max >= K),
+            ("strong:helper-table(>=2 structs and >=4 functions)", sizes.helper_structs >= 2 && sizes.helper_functions >= K),
+            ("strong:include-graph(>=4 pragma-once files, >=8 includes, >=12 macros)", sizes.pragma_once >= K && sizes.includes >= 8 && sizes.macros >= 12),
+        ];
+        for (k, v) in strong {
+            if v {
+                report.count(k);
+            }
+        }
+    }
+    if let Some(info) = &case.info {
+        report.max("max:generated:conflict-pairs", info.conflict_pairs as u64);
+        report.count(&format!("hist:generated:input-conflict-pairs:{}", bucket(info.conflict_pairs)));
+        report.count(&format!("hist:generated:input-min-pairs-per-scope:{}", bucket(info.min_pairs_per_scope)));
+        report.count(&format!("hist:generated:input-neutral-pairs:{}", bucket(info.neutral_pairs)));
+        report.count(&format!("hist:generated:input-scopes:{}", bucket(info.scopes)));
+        report.count(&format!("hist:generated:input-bind-groups:{}", info.groups));
+        report.count(&format!("hist:generated:input-chain-depth:{}", info.chain_depth));
+        report.count(&format!("hist:generated:input-statics:{}", info.statics));
+        if let Some(e) = info.injected_error {
+            report.count(&format!("generated:injected-error:{}", e));
+            if accepted_somewhere {
+                report.count("generated:injected-error-but-accepted");
+            }
+        } else if !accepted_somewhere {
+            report.count("generated:meant-to-be-accepted-but-rejected");
+        } else if sizes.classes.iter().any(|c| *c != "ok") {
+            report.count("generated:accepted-on-some-targets-only");
+        }
+    }
+    // samples: generated inputs written out in full (corpus files and snippets are in the repository)
+    if report.want_sample() && case.info.is_some() && (accepted_somewhere || report.samples.is_empty()) {
+        report.sample(
+            Json::obj()
+                .set("kind", &case.kind)
+                .set("entry", &case.entry)
+                .set("files", case.files.to_json())
+                .set("defines", Json::Arr(case.defines.iter().map(|(a, b)| Json::str(format!("{}={}", a, b))).collect()))
+                .set("mode", case.mode.name())
+                .set("validate_layout", case.validate_layout)
+                .set("runs", format!("{} fresh threads + {} child processes, 4 targets each", case.thread_runs, case.process_runs))
+                .set("measured_on_output", sizes.to_json())
+                .set("generator_info", case.info.as_ref().map(|i| Json::str(format!("{:?}", i))).unwrap_or(Json::Null)),
+        );
+    }
+    Some(sizes)
+}
+
+// ------------------------------------------------------------------------------------------------
+// Driver entry points
+// ------------------------------------------------------------------------------------------------
+
+fn run(ctx: &Ctx) -> Report {
+    let corpus = Corpus { sets: corpus::load(), snippets: corpus::test_snippets() };
+    let plan = Plan::new(ctx, &corpus);
+    let n = plan.total();
+    let seed = ctx.seed;
+    let mut report = par::run_cases(ctx, n, |index, report| {
+        let case = make_case(seed, index, &corpus, &plan);
+        examine(&case, report);
+    });
+    report.count_n("plan:generated", plan.generated);
+    report.count_n("plan:snippets", plan.snippets);
+    report.count_n("plan:corpus-basic", plan.basic.len() as u64);
+    report.count_n("plan:corpus-big", plan.big.len() as u64);
+    if corpus.snippets.len() < 50 {
+        report.inconclusive("could not read the unit-test snippets from the repository");
+    }
+    if plan.basic.len() < 5 || plan.big.is_empty() {
+        report.inconclusive("could not read the tests/ corpus from the repository");
+    }
+    // the sizes gate: enough inputs must have put >= K elements into every measured container
+    let need = ctx.tier.pick(50, 700);
+    let get = |r: &Report, k: &str| r.counters.get(k).copied().unwrap_or(0);
+    for key in [
+        "strong:names-hlsl(>=4 suffixed names, >=1 double suffix)",
+        "strong:names-msl(>=4 suffixed names)",
+        "strong:usage-sets(>=4 implicit parameters on >=4 Metal functions)",
+        "strong:inline-constant-blocks(>=4 groups)",
+        "strong:argument-buffers(>=4 members in one buffer)",
+        "strong:helper-table(>=2 structs and >=4 functions)",
+        "strong:include-graph(>=4 pragma-once files, >=8 includes, >=12 macros)",
+    ] {
+        let have = get(&report, key);
+        if have < need {
+            report.inconclusive(&format!("only {} inputs reached `{}` (need {}): the containers stayed too small to expose an unsorted iteration", have, key, need));
+        }
+    }
+    let rejected = get(&report, "inputs:rejected-on-all-targets");
+    if rejected < ctx.tier.pick(30, 400) {
+        report.inconclusive(&format!("only {} rejected inputs were observed: diagnostics were hardly compared", rejected));
+    }
+    if get(&report, "runs:child-process") < ctx.tier.pick(600, 6000) {
+        report.inconclusive("too few child process runs were observed");
+    }
+    report
+}
+
+fn replay(_ctx: &Ctx, witness: &Json) -> Report {
+    let case = Case::from_json(witness);
+    let mut report = Report::new();
+    // a witness is a rare event by construction: give it several rounds of 8 + 3 runs
+    for _ in 0..3 {
+        examine(&case, &mut report);
+        if !report.violations.is_empty() {
+            break;
+        }
+    }
+    report
+}
